@@ -23,6 +23,7 @@ RULE = (
     "themselves yield (so emissions of concurrent nodes interleave); the recorded stream of each healthy processor is parsed by a span-tree "
     "checker; the loop is drained after the call to catch late events and orphan tasks. Non-trivial = the stream contains a nested run, a "
     "map, a cache hit, a route decision or a node error; distinct = digest of (program shape, inputs, faults, event-order signature)."
+    ' Also: explicit select with on_missing="error" (a completed run whose selected output is missing ends as a failed, well-formed run), a cache backend whose k-th set()/get() raises, generator nodes, several kinds of injected exception.'
 )
 ASSUMPTIONS = ["paused runs are outside the statement and are not generated here", "RunEnd status 'failed' is expected when the caller sees an exception or a FAILED result"]
 
